@@ -87,12 +87,12 @@ MODEL_BATCH = [[], [], [], [2], [2], [3], [2, 2]]
 
 
 @st.composite
-def exact_case(draw, names=None, depth=2, nmax=6, nsmax=4, lik_kinds=("Gaussian", "Gaussian", "FixedNoise", "FixedNoise+"),
+def exact_case(draw, names=None, depth=2, nmax=6, nsmax=4, nmin=1, lik_kinds=("Gaussian", "Gaussian", "FixedNoise", "FixedNoise+"),
                test_batches=True, model_batches=None):
     d = draw(st.integers(1, 3))
     mb = draw(st.sampled_from(model_batches or MODEL_BATCH))
     xb = draw(st.sampled_from([[], mb])) if mb else []
-    n = draw(st.integers(1, nmax))
+    n = draw(st.integers(nmin, nmax))
     ns = draw(st.integers(1, nsmax))
     topts = [[], mb, [3] + mb] if mb else [[], [2], [3, 2]]
     tb = draw(st.sampled_from(topts if test_batches else [mb]))
@@ -190,6 +190,8 @@ def pred_settings(draw, n_total, allow_skip=True):
         "detach": draw(st.booleans()),
         "skip_var": draw(st.integers(0, 7)) == 0 if allow_skip else False,
         "precond": draw(st.sampled_from([0, 15])),
+        # eval_cg_tolerance is the tolerance of every solve of a prediction; the training tolerance cg_tolerance must not matter
+        "train_cg": draw(st.sampled_from(["tight", "default"])),
     }
 
 
@@ -215,7 +217,7 @@ class settings_ctx:
             S.fast_computations(covar_root_decomposition=s["fc"][0], log_prob=s["fc"][1], solves=s["fc"][2]),
             S.max_cholesky_size(s["max_chol"]), S.fast_pred_var(s["fpv"]), S.detach_test_caches(s["detach"]),
             S.skip_posterior_variances(s["skip_var"]), S.max_preconditioner_size(s["precond"]),
-            S.cg_tolerance(1e-12), S.eval_cg_tolerance(1e-12), S.max_cg_iterations(2000), S.max_root_decomposition_size(200),
+            S.cg_tolerance(1e-12 if s.get("train_cg", "tight") == "tight" else 1.0), S.eval_cg_tolerance(1e-12), S.max_cg_iterations(2000), S.max_root_decomposition_size(200),
             S.max_lanczos_quadrature_iterations(200),
         ):
             st_.enter_context(cm)
@@ -237,7 +239,7 @@ def cg_calibration(A, rhs, s, limit=1e-7):
     the domain of the CG path; it is not the oracle."""
     from linear_operator import to_linear_operator
 
-    with settings_ctx(s), torch.no_grad():
+    with settings_ctx({**s, "train_cg": "tight"}), torch.no_grad():
         sol = to_linear_operator(A).solve(rhs)
     ref = torch.linalg.solve(A, rhs)
     err = float((sol - ref).abs().max() / ref.abs().max().clamp_min(1e-300))
@@ -251,4 +253,5 @@ def uses_lanczos(s):
 
 def settings_label(s):
     return (f"lazy={int(s['lazy'])},eager={'lt' if s['eager_size'] == 0 else ('big' if s['eager_size'] == 512 else 'edge')},"
-            f"fc={''.join(str(int(b)) for b in s['fc'])},chol={s['max_chol']},fpv={int(s['fpv'])},det={int(s['detach'])},skip={int(s['skip_var'])}")
+            f"fc={''.join(str(int(b)) for b in s['fc'])},chol={s['max_chol']},fpv={int(s['fpv'])},det={int(s['detach'])},skip={int(s['skip_var'])}"
+            f"{',traincg=default' if s.get('train_cg') == 'default' else ''}")
